@@ -278,6 +278,12 @@ def check_summary(rep, prog):
         rep.check(ok, rule, "summary %s equals '%s' of the %s in the full decode" % (k, key, sec), "parsePELSummary",
                   "summary[%r] = ..." % k, "list entry field %s differs from the full decode's %s / %s: summary has %r, full decode shows %r" % (
                       k, sec, key, got, full))
+    # the summary decode accepts what the full decode accepts: it must not trip over a PEL that simply lacks an optional part
+    for e in I.events:
+        if e.kind == "raise" and any(is_const(x, str) and "NoneType" in x.v for a in e.data for x in walk(a)) and e.guard != FALSE:
+            rep.fail(rule, e.func, e.node, "the summary decode subscripts a value that is None on some path (e.g. a PEL without a primary SRC): "
+                     "the TypeError is swallowed by the per-file barrier and the PEL is missing from --list although -n counts it and -a shows it",
+                     node=e.node)
     # eid returned = the Entry Id
     rep.count("summary fields compared", len(want))
 
